@@ -26,6 +26,9 @@ func init() {
 
 func runC11(w *World, r *Report) {
 	la := NewLockAn(w)
+	hrLockOwnersUsePointerReceivers(w, r, "R1", "lunar/")
+	hrVersionBumpReturnsPrevious(w, r, "R4")
+	hrVacuumStartOnce(w, r, la, "R1")
 	checkGB(w, r, la, "R1", []GuardRow{
 		{Pkg: pkgConfig, Struct: "TxnPoliciesAccessor", Fields: []string{"currentVersion", "policiesVersions", "txnVersions"}, Mutex: "mutex", MinSites: 14,
 			Except: map[string]string{"TxnPoliciesAccessor).GetCurrentPoliciesData": "the unlocked reads are arguments of the error log on the current-version-not-found path only; the deciding lookup is under RLock (checked: every other access in this function holds the lock)"}},
